@@ -411,7 +411,7 @@ class PreC:
     """Concrete pre-state: vertices a, b, c; joining links J_i between a and b (or self-loops on a when
     selfloop); one non-joining link K = DirectedEdge(a, c) placed first, between or last in a.links."""
 
-    def __init__(self, h, joins, selfloop=False, kpos=0, memo="empty", flag=False):
+    def __init__(self, h, joins, selfloop=False, kpos=0, memo="empty", flag=False, brev=False):
         self.h = h
         key = ("C", tuple(c for c, _ in joins))
         pool = h.rollback(key)
@@ -442,7 +442,7 @@ class PreC:
         al.insert(min(kpos, len(al)), K)
         a.fields["_links"] = Seq(al, "list")
         if not selfloop:
-            V["b"].fields["_links"] = Seq(list(js), "list")
+            V["b"].fields["_links"] = Seq(list(reversed(js)) if brev else list(js), "list")
         c.fields["_links"] = Seq([K], "list")
         self.ghost = {}
         if memo == "warm":
@@ -519,9 +519,11 @@ def explicit_runs(h, res=None, memo="empty", flag=False, thorough=False):
                                 res.undecide(f"explicit.unlink on {joins} selfloop={selfloop}: {u}")
                 # ---- link_from_to / link_directed / link_undirected (+- dontdup)
                 for fname, kcls in (("link_from_to", "DirectedEdge"), ("link_from_to", "UnDirectedEdge"), ("link_from_to", "SymTwo"), ("link_directed", None), ("link_undirected", None)):
-                    for dontdup in (False, True):
+                    for dontdup, brev in ((False, False), (True, False), (True, True)):
+                        if brev and (len(joins) < 2 or selfloop):
+                            continue   # b listing the parallel links in the opposite order (reachable by re-pointing ends)
                         for swap in (False, True):
-                            p = PreC(h, joins, selfloop, kpos, memo, flag)
+                            p = PreC(h, joins, selfloop, kpos, memo, flag, brev=brev)
                             x, y = ("a", bname) if not swap else (bname, "a")
                             try:
                                 if fname == "link_from_to":
@@ -542,7 +544,7 @@ def explicit_runs(h, res=None, memo="empty", flag=False, thorough=False):
                             post, links = p.post()
                             yield Rec(family="C", lcls="+".join(c04.KINDS[c] + o for c, o in joins) or "none", ends=(), op=fname, arg=(made, dontdup, swap), out=out, mr=mr, p=p,
                                       pre=p.pre, post=post, links=links, model=p.model, qual=QUAL[fname],
-                                      icls=f"joining={len(joins)},selfloop={selfloop},dontdup={dontdup}", replay="", choices=())
+                                      icls=f"joining={len(joins)},selfloop={selfloop},dontdup={dontdup}" + (",ends-list-links-in-different-order" if brev else ""), replay="", choices=(brev,))
 
 
 # ------------------------------------------------------------------------------- comparisons
